@@ -142,6 +142,12 @@ def gen_factory(tier):
                 items.append(("direct%d" % k, r))
             for k, r in enumerate(include_rejected()):
                 items.append(("include%d" % k, r))
+            # the path expression of include / import is evaluated while the statement is compiled: what it changes stays changed when the
+            # text is rejected (recorded finding; the cases keep watching that nothing else is disturbed)
+            if hasv:
+                for k, r in enumerate(['include s.concat(".none") junk;', 'include s.concat(".none");', 'a = 5; include s.concat("/x/y") + str(a);',
+                                       'import s.concat(".none") junk;', 'import s.concat("/nonexistent");']):
+                    items.append(("pathexpr:%s%d" % (r.split()[0] if not r.startswith("a =") else "include", k), r))
             # rejected texts that (re)declare several functions - also the same one twice, with different bodies - before the error
             decls = [("f1a", "function f1(x) return integer is begin return x + 100; end;"), ("f1b", "function f1(x) return integer is begin return x + 200; end;"),
                      ("f2a", "function f2(x, y) return integer is begin return x - y; end;"), ("f2b", "function f2(x) return integer is begin return x + 7; end;"),
@@ -176,7 +182,7 @@ def gen_factory(tier):
                         items.append(("chain:%s+%s" % (t1, t2), (r1, r2)))
             for tag, r in items:
                 routes = ("cpp", "capipos", "istmt") if tier == "thorough" else (("cpp", "capipos", "istmt")[n % 3],)
-                if tag.startswith("retype") and tier != "thorough":
+                if tag.startswith(("retype", "pathexpr")) and tier != "thorough":
                     routes = (("cpp", "capipos")[n % 2],)
                 for route in routes:
                     rs = r if isinstance(r, tuple) else (r,)
@@ -245,6 +251,16 @@ def check(case, res):
     def bad(key, msg):
         vs.append(Violation("%s:%s" % (key, where), "%s after rejected %r (prefix %s)" % (msg, m["r"], m["prefix"]), case))
     v0, v1 = d0.get("vars", {}), d1.get("vars", {})
+    if cls == "pathexpr":
+        # one narrow key for the recorded finding: only S, only the concatenated text
+        changed = {name for name in v0 if v1.get(name) != v0[name]}
+        which = "include" if "include" in m["tag"] else "import"
+        if changed == {"S"} and v1.get("S", "").startswith(v0["S"]) and f0.get("funcs") == f1.get("funcs"):
+            vs.append(Violation("path-expression-evaluated-in-rejected-text:%s" % which,
+                                "S was %r, is %r after rejected %r" % (v0["S"], v1.get("S"), m["r"]), case))
+            return vs, True
+        if not changed and f0.get("funcs") == f1.get("funcs") and d1.get("backed") == 0:
+            return vs, True
     for name, val in v0.items():
         if v1.get(name) != val:
             bad("variable-disturbed", "variable %s was %r, is %r" % (name, val, v1.get(name)))
